@@ -99,6 +99,27 @@ Theorem C03_proof_sound_at_height :
 Proof. exact no_proof_for_absent_or_other. Qed.
 Print Assumptions C03_proof_sound_at_height.
 
+(* range-searching at root_h (TrieStore.Seek: any prefix, any start point, either direction) = the same range query on
+   the contract storage of height h.  Premise [seek_spec] is C10's C10_seek_spec; the range is the one C09 proves for
+   every store of the node ([C03_range_is_the_store_range]: forwards prefix++start <= key, backwards key <= prefix++start
+   or key extends prefix++start), so the live node has exactly one answer for every range and the trie must give it *)
+Theorem C03_seek_at_height :
+  forall (trie : Type) (empty_trie : trie) (content : trie -> smap) (apply_batch : trie -> list change -> trie),
+  content empty_trie = [] ->
+  (forall t b, ssorted b -> ssorted (content t) -> content (apply_batch t (map nib_change b)) = map_apply b (content t)) ->
+  forall seek : trie -> bytes -> bytes -> bool -> smap,
+  (forall t P S bw, reachable trie empty_trie apply_batch t -> seek t P S bw = sm_range P S bw (content t)) ->
+  forall bs t P S bw, trie_run trie apply_batch empty_trie bs t ->
+    seek t P S bw = sm_range P S bw (storage_after [] bs).
+Proof. exact seek_at_height. Qed.
+Print Assumptions C03_seek_at_height.
+
+Theorem C03_range_is_the_store_range : forall P S bw k,
+  in_range P S bw k =
+  is_prefix P k && (if bw then ble k (P ++ S) || is_prefix (P ++ S) k else ble (P ++ S) k).
+Proof. exact in_range_c09_form. Qed.
+Print Assumptions C03_range_is_the_store_range.
+
 (* non-vacuity: the interface hypotheses are consistent (the trie whose state is its content), and a concrete block
    with an overwrite, a delete-and-recreate and a delete of an absent key *)
 Example C03_interface_inhabited :
